@@ -40,7 +40,23 @@ const U_WRAP: u64 = 107;
 const U_AWAIT: u64 = 108;
 const U_AWAITED: u64 = 109;
 
-const N_RES: usize = 6; // 0 file, 1 pipe, 2 tcp, 3 udp, 4 unix, 5 probe pipe
+// 0 file, 1 pipe, 2 tcp, 3 udp, 4 unix, 5 probe pipe; descriptors on which reads FAIL (on io_uring after
+// the kernel has consumed a ring buffer): 6 directory, 7 write-only file, 8 /proc/self/mem (as files, read at
+// an offset), 9 directory, 10 write-only file (as streams, read at the cursor)
+const N_RES: usize = 11;
+
+fn open_raw(path: &str, flags: i32) -> Result<i32, BadCase> {
+    let c = std::ffi::CString::new(path).map_err(|_| BadCase)?;
+    let fd = unsafe { libc::open(c.as_ptr(), flags | libc::O_CLOEXEC, 0o600) };
+    if fd < 0 { Err(BadCase) } else { Ok(fd) }
+}
+
+fn wronly_fd() -> Result<i32, BadCase> {
+    let path = format!("/tmp/verif_c07_w_{}_{:?}", std::process::id(), std::thread::current().id());
+    let fd = open_raw(&path, libc::O_WRONLY | libc::O_CREAT | libc::O_TRUNC)?;
+    let _ = std::fs::remove_file(&path);
+    Ok(fd)
+}
 
 enum Item {
     Buf(BufferRef, usize, usize), // buffer, payload offset, payload length
@@ -152,6 +168,14 @@ fn mk_res(r: usize) -> Result<Res, BadCase> {
             let (rx, tx) = mk_pipe()?;
             Res::Pipe(rx, Some(tx))
         }
+        6 => Res::File(unsafe { compio_fs::File::from_raw_fd(open_raw("/tmp", libc::O_RDONLY | libc::O_DIRECTORY)?) }, 0),
+        7 => Res::File(unsafe { compio_fs::File::from_raw_fd(wronly_fd()?) }, 0),
+        8 => Res::File(unsafe { compio_fs::File::from_raw_fd(open_raw("/proc/self/mem", libc::O_RDONLY)?) }, 0),
+        9 => Res::Pipe(
+            unsafe { compio_fs::pipe::Receiver::from_raw_fd(open_raw("/tmp", libc::O_RDONLY | libc::O_DIRECTORY)?) },
+            None,
+        ),
+        10 => Res::Pipe(unsafe { compio_fs::pipe::Receiver::from_raw_fd(wronly_fd()?) }, None),
         2 => {
             let l = std::net::TcpListener::bind("127.0.0.1:0").map_err(|_| BadCase)?;
             let a = std::net::TcpStream::connect(l.local_addr().map_err(|_| BadCase)?).map_err(|_| BadCase)?;
@@ -426,6 +450,31 @@ impl World {
                 *pos = (*pos + 7) % 3000;
                 single!(item_of(f.read_managed_at(len, p).await))
             }
+            (Res::File(f, _), 18) => {
+                // a read at the end of the file: Ok(0)
+                let f = f.clone();
+                single!(item_of(f.read_managed_at(len, 1 << 20).await))
+            }
+            (Res::File(f, pos), 17) => {
+                // ReadMultiAt through the runtime-level stream, built as compio-net builds its streams
+                use compio_driver::ToSharedFd;
+                let fd = f.to_shared_fd();
+                let p = *pos;
+                *pos = (*pos + 7) % 3000;
+                multi!(
+                    fd,
+                    {
+                        let rt = Runtime::current();
+                        let fd2 = fd.clone();
+                        compio_runtime::SubmitMultiStream::new(move || {
+                            let pool = rt.buffer_pool()?;
+                            let op = compio_driver::op::ReadMultiAt::new(fd2.clone(), p, &pool, len)?;
+                            Ok(rt.submit_multi(op).into_managed(pool))
+                        })
+                    },
+                    plain
+                )
+            }
             (Res::File(..), _) => return Err(BadCase),
             (Res::Pipe(rx, _), 1) => {
                 let rx = rx.clone();
@@ -557,7 +606,7 @@ impl World {
     /// bytes (datagrams) the OS holds for the reading end of resource r right now
     fn os_pending(&self, r: usize) -> bool {
         let fd = match self.res[r].as_ref() {
-            Some(Res::File(..)) => return true,
+            Some(Res::File(..)) => return r == 0,
             Some(Res::Pipe(x, _)) => x.as_raw_fd(),
             Some(Res::Tcp(x, _)) => x.as_raw_fd(),
             Some(Res::Udp(x, _)) => x.as_raw_fd(),
@@ -565,6 +614,9 @@ impl World {
             None => return false,
         };
         let mut n: libc::c_int = 0;
+        if r >= 6 {
+            return false;
+        }
         let rc = unsafe { libc::ioctl(fd, libc::FIONREAD, &mut n) };
         rc == 0 && n > 0
     }
@@ -579,11 +631,16 @@ impl World {
         }
         self.drive(0);
         let (r, kind) = (self.slots[s].res, self.slots[s].kind);
-        let pending = self.os_pending(r) as u64;
+        // a multishot read at an offset is refused before the kernel looks at the ring
+        let pending = (self.os_pending(r) && kind != 17) as u64;
         let sole = (self.slots.iter().filter(|x| x.fut.is_some() && x.res == r).count() == 1) as u64;
         self.user(U_AWAIT, s as u64 | kind << 16, pending | sole << 1 | (mode & 1) << 2);
         let (mut outcome, mut err, mut busy_seen) = (0u64, 0u64, 0u64);
-        for round in 0..80 {
+        let t0 = Instant::now();
+        let mut round = 0;
+        // the round budget; a job in the blocking pool (polling driver, files) gets wall time as well
+        while round < 80 || (self.dispatched > self.finished && t0.elapsed() < Duration::from_secs(10)) {
+            round += 1;
             let pd = self.poll_slot(s);
             if pd.bufs > 0 {
                 outcome = 1;
@@ -795,12 +852,12 @@ fn run(case: &[u64]) -> Result<Vec<u64>, BadCase> {
     for (op, a, b) in steps {
         beat();
         match op {
-            1 | 2 | 11 | 12 | 14 => {
+            1 | 2 | 11 | 12 | 14 | 17 | 18 => {
                 if w.rt.is_none() {
                     continue;
                 }
                 let r = a as usize;
-                if op >= 11 && r != 3 {
+                if (op == 11 || op == 12 || op == 14) && r != 3 {
                     return Err(BadCase);
                 }
                 w.new_slot(r, b as usize, op)?;
